@@ -203,6 +203,28 @@ fn const_value_j<'tcx>(tcx: TyCtxt<'tcx>, v: ConstValue, ty: Ty<'tcx>) -> J {
     match v {
         ConstValue::Scalar(mir::interpret::Scalar::Int(i)) => scalar_int_j(i, ty),
         ConstValue::ZeroSized => J::s("zst"),
+        ConstValue::Scalar(mir::interpret::Scalar::Ptr(ptr, _)) => {
+            // `&[u8; N]` literals (byte strings, format_args! templates): the bytes of the pointed-to allocation
+            if let ty::Ref(_, inner, _) = ty.kind() {
+                if let ty::Array(elem, len) = inner.kind() {
+                    if matches!(elem.kind(), ty::Uint(ty::UintTy::U8)) {
+                        if let Some(n) = len.try_to_target_usize(tcx) {
+                            let (prov, off) = ptr.prov_and_relative_offset();
+                            if let mir::interpret::GlobalAlloc::Memory(alloc) = tcx.global_alloc(prov.alloc_id()) {
+                                let a = alloc.inner();
+                                let start = off.bytes_usize();
+                                let end = start + n as usize;
+                                if end <= a.len() {
+                                    let bytes = a.inspect_with_uninit_and_ptr_outside_interpreter(start..end);
+                                    return J::Obj(vec![("bytes", J::Arr(bytes.iter().map(|b| J::Int(*b as i128)).collect()))]);
+                                }
+                            }
+                        }
+                    }
+                }
+            }
+            J::Null
+        }
         ConstValue::Slice { .. } => {
             if let Some(bytes) = v.try_get_slice_bytes_for_diagnostics(tcx) {
                 match std::str::from_utf8(bytes) {
